@@ -4,7 +4,7 @@ from ._replies_common import run_reply_stream
 
 THEOREMS = [("Sylvia.Thm.C09", "C09." + t) for t in
             ["guards_documented", "raw_opt_mode", "raw_mode", "typed_mode", "opt_mode", "instantiate_mode", "instantiate_opt_mode", "extract_err_no_call"]] + \
-           [("Sylvia.Thm.Obl.Tables", "Obl.extraction_complete")]
+           [("Sylvia.Thm.Obl.Complete.C09", "Obl.extraction_complete_C09")]
 
 
 def run(ctx):
